@@ -237,6 +237,7 @@ void root() {
   for (int i = 0; i < nplans; i++) { auto &f = fails[gen(sizeof fails / sizeof fails[0])]; int kth = 1 + (int)gen(f.call == kern::SC_FCNTL ? 12 : 4); kern::plan_fail(f.call, kth, f.err); describe("%s#%d->%d ", kern::call_names[f.call], kth, f.err); }
   if (gen(6) == 0) { shim::fail_create_kth = 1 + (int)gen(3); describe("pthread_create#%d ", shim::fail_create_kth); }
   if (gen(8) == 0) { shim::fail_key_create_kth = 1 + (int)gen(3); describe("key_create#%d ", shim::fail_key_create_kth); }
+  if (gen(8) == 0) { shim::fail_setname_kth = 1 + (int)gen(3); describe("setname#%d ", shim::fail_setname_kth); }
   int steps = (int)gen_range(5, tier ? 60 : 40);
   describe("steps=%d", steps);
   for (int i = 0; i < steps; i++) {
